@@ -20,12 +20,70 @@ def registry():
     return reg
 
 
+def replay(pid, path):
+    """re-execute the artefact of a reported violation on the real code (built from /repo's working tree) and say whether it still shows"""
+    import json, os, collections
+    d = json.load(open(path))
+    art = d.get("artefact", {})
+    print("property", d.get("property"), "-", d.get("what", "")[:300])
+    vlib.build(("vdrive", "vworker"))
+    os.makedirs(vlib.WORKROOT, exist_ok=True)
+    texts = [(k, art[k]) for k in ("program", "program_a", "program_b") if isinstance(art.get(k), str)]
+    bad = False
+    w = vlib.Worker(timeout=20)
+    verdicts = {}
+    for k, t in texts:
+        r = w.call({"op": "check", "text": t, "grace_ms": 500})
+        vd = "crash" if ("crash" in r or "panic" in r or r.get("hang")) else ("parse-error" if r.get("parse") != "ok" else ("accept" if r.get("tc") == "ok" else "reject"))
+        verdicts[k] = vd
+        print("  typecheck of %s: %s %s" % (k, vd, str(r.get("tc") or r.get("parse") or r.get("crash"))[:160]))
+        if vd == "crash" or ("expected" in art and vd != art["expected"]):
+            bad = True
+    w.stop()
+    if len(set(verdicts.values())) > 1:
+        bad = True
+    run = art.get("run") or art.get("run_a")
+    rid = run["id"] if isinstance(run, dict) else run
+    if texts and isinstance(rid, str) and "|" in rid:
+        parts = rid.split("|")
+        mode = parts[1]
+        for k, t in texts:
+            if verdicts.get(k) != "accept":
+                continue
+            jobs = [{"id": "replay|%d" % i, "text": t, "mode": mode, "typecheck": True, "execute": True, "gomaxprocs": int(parts[2]) if len(parts) > 2 else 16,
+                     "monitor": bool(int(parts[3])) if len(parts) > 3 else False, "seed": i, "yield": float(parts[4]) if len(parts) > 4 else 0.0, "trace": True}
+                    for i in range(12)]
+            res = vlib.run_jobs(os.path.join(vlib.BUILD, "vdrive"), jobs, batch=1, timeout=30)
+            c = collections.Counter()
+            for j in jobs:
+                r = res[j["id"]]
+                if r.get("crash"):
+                    c["CRASH " + r["crash"][:80].replace("\n", " ")] += 1
+                    bad = True
+                else:
+                    c["prints [%s] stuck=%d" % (" ".join(sorted(r.get("prints") or [])), len(r.get("blocked") or []))] += 1
+            print("  12 runs of %s in mode %s:" % (k, mode))
+            for o, n in c.most_common():
+                print("    %2d x %s" % (n, o[:300]))
+            if "reference_bag" in art and any(sorted(res[j["id"]].get("prints") or []) != sorted(art["reference_bag"]) for j in jobs if not res[j["id"]].get("crash")):
+                bad = True
+            if len([o for o in c if not o.startswith("CRASH")]) > 1:
+                bad = True
+    if bad:
+        print("VIOLATION property=%s replay=%s" % (pid, path))
+        return 1
+    print("not reproduced on the current tree")
+    return 0
+
+
 def main():
     if "--setup" in sys.argv:
         vlib.build(("vdrive", "vblack", "vworker"))
         print("setup ok")
         return 0
     pid = sys.argv[1]
+    if "--replay" in sys.argv:
+        return replay(pid, sys.argv[sys.argv.index("--replay") + 1])
     if "--tier" in sys.argv:
         os.environ["VERIF_TIER"] = sys.argv[sys.argv.index("--tier") + 1]
     reg = registry()
